@@ -335,12 +335,17 @@ pdgstrf(superlumt_options_t *superlumt_options, SuperMatrix *A, int_t *perm_r,
     pdgstrf_thread_finalize(pdgstrf_threadarg, &pxgstrf_shared, 
 			    A, perm_r, L, U);
 
-    /* A thread ran out of (caller-supplied) workspace: L and U are not
-       usable and the caller has no way to tell that their Store headers
-       were allocated nevertheless. */
+    /* A thread ran out of workspace: L and U are not usable and the
+       caller has no way to tell that their Store headers (and, with
+       system memory, their arrays) were allocated nevertheless. */
     if ( *info > A->ncol && superlumt_options->refact == NO ) {
-	Destroy_SuperMatrix_Store(L);
-	Destroy_SuperMatrix_Store(U);
+	if ( superlumt_options->lwork == 0 ) {
+	    Destroy_SuperNode_SCP(L);
+	    Destroy_CompCol_NCP(U);
+	} else {
+	    Destroy_SuperMatrix_Store(L);
+	    Destroy_SuperMatrix_Store(U);
+	}
     }
 
 }
